@@ -67,7 +67,12 @@ func genBLengthField(w *codewriter, rwctx *golang.ReadWriteContext, f *golang.Fi
 	// check skip cases
 	// only for optional fields
 	if f.Requiredness == parser.FieldType_Optional {
-		if f.GoTypeName().IsPointer() || isContainerType(f.Type) {
+		if f.Type.Category == parser.Category_Binary && f.Default != nil {
+			// case 0: a binary with a default value is unset when it equals
+			// the default, not when it is nil (same test as the generated Write)
+			w.f("if p.%s() {", f.IsSetter())
+			defer w.f("}")
+		} else if f.GoTypeName().IsPointer() || isContainerType(f.Type) {
 			// case 1: optional and nil
 			w.f("if %s != nil {", varname)
 			defer w.f("}")
